@@ -274,6 +274,7 @@ func init() {
 		}
 
 		c12HeightScoped(c)
+		c12LockAndThresholdWrites(c)
 		c12Thresholds(c)
 	})
 }
@@ -510,5 +511,78 @@ func c12HeightScoped(c *Ctx) {
 	}
 	if n < 10 {
 		c.und("height-scoped", "stateMachine fields", "", fmt.Sprintf("only %d mutated fields found", n))
+	}
+}
+
+// c12LockAndThresholdWrites: (lock-unconditional) in the rule action of lines 36–43 the lock (lockedValue, lockedRound) is
+// (re)taken under step = prevote and nothing else — in particular not depending on the lock already held: re-locking the same
+// value in a later round must raise lockedRound, or line 28/29 later accepts an older polka; (thresholds-every-height)
+// StartNewHeight recomputes total, f and q for the new height unconditionally.
+func c12LockAndThresholdWrites(c *Ctx) {
+	p := c.P
+	if f := tmFunc(p, "doProposalAndPolkaCurrent"); f != nil {
+		n := 0
+		allInstrs(f, func(in ssa.Instruction) {
+			st, ok := in.(*ssa.Store)
+			if !ok {
+				return
+			}
+			fa, ok := st.Addr.(*ssa.FieldAddr)
+			if !ok || !isNamed(fa.X.Type(), "consensus/tendermint", "state") {
+				return
+			}
+			fld := fieldName(fa.X.Type(), fa.Field)
+			if fld != "lockedValue" && fld != "lockedRound" {
+				return
+			}
+			n++
+			var bad []string
+			for _, cj := range p.mustHoldAt(in) {
+				for _, a := range cj.list() {
+					if strings.Contains(a, "lockedValue") || strings.Contains(a, "lockedRound") {
+						bad = append(bad, a)
+					}
+				}
+			}
+			bad = uniq(bad)
+			c.check(len(bad) == 0, "lock-unconditional", "doProposalAndPolkaCurrent: "+fld, p.Pos(posOf(in, f)), "set whenever the rule fires in step prevote, independent of the lock already held", "the lock is only updated under "+strings.Join(bad, "; ")+": a validator re-locking the same value in a later round keeps its old lockedRound and later accepts a proposal carrying an older polka (agreement can break)")
+		})
+		if n < 2 {
+			c.und("lock-unconditional", "doProposalAndPolkaCurrent", p.Pos(fnPos(f)), "stores to lockedValue/lockedRound not found")
+		}
+	} else {
+		c.und("lock-unconditional", "doProposalAndPolkaCurrent", "", "anchor not found")
+	}
+	vc := p.FuncsNamed("consensus/votecounter", "VoteCounter", "StartNewHeight")
+	var f *ssa.Function
+	for _, g := range vc {
+		if g.Origin() == nil {
+			f = g
+		}
+	}
+	if f == nil {
+		c.und("thresholds-every-height", "VoteCounter.StartNewHeight", "", "anchor not found")
+		return
+	}
+	got := map[string]string{}
+	cond := map[string]bool{}
+	allInstrs(f, func(in ssa.Instruction) {
+		if st, ok := in.(*ssa.Store); ok {
+			if fa, ok := st.Addr.(*ssa.FieldAddr); ok {
+				nm := fieldName(fa.X.Type(), fa.Field)
+				if nm == "totalVotingPower" || nm == "faultyVotingPower" || nm == "quorumVotingPower" {
+					got[nm] = term(st.Val)
+					d := p.mustHoldAt(in)
+					if !(len(d) == 1 && len(d[0]) == 0) && len(d) > 0 {
+						cond[nm] = true
+					}
+				}
+			}
+		}
+	})
+	for _, nm := range []string{"totalVotingPower", "faultyVotingPower", "quorumVotingPower"} {
+		v, ok := got[nm]
+		want := map[string]string{"totalVotingPower": "TotalVotingPower(", "faultyVotingPower": "f(", "quorumVotingPower": "q("}[nm]
+		c.check(ok && !cond[nm] && strings.Contains(v, want) && (strings.Contains(v, "TotalVotingPower(") || strings.Contains(v, "totalVotingPower")), "thresholds-every-height", "StartNewHeight: "+nm, p.Pos(fnPos(f)), "recomputed unconditionally from the validator set of the new height", "StartNewHeight does not unconditionally recompute "+nm+" from the new height's total voting power (got "+v+fmt.Sprintf(", conditional=%v", cond[nm])+"): after the set changes and changes back the thresholds of another height stay in force and a minority can form a quorum")
 	}
 }
